@@ -53,6 +53,38 @@ func wireTokSpec(r *Rand, nCast int, label string, focus string) TokSpec {
 			ts.Dlg.Meta = append(ts.Dlg.Meta, MetaSpec{Key: "raw", V: &v})
 		}
 	}
+	if r.Chance(0.25) {
+		// empty and falsy shapes
+		v := vMap(KV{"e", vMap()}, KV{"l", vList()}, KV{"b", Val{K: "bytes", X: []byte{}}}, KV{"f", vBool(false)}, KV{"s", vStr("")}, KV{"z", vInt(0)}, KV{"n", vInt(-1)}, KV{"ll", vList(vList(), vMap())})
+		if ts.Kind == "inv" {
+			ts.Inv.Args = append(ts.Inv.Args, KV{"shapes", v}, KV{"emptystr", vStr("")}, KV{"no", vBool(false)}, KV{"nil", vNull()})
+			ts.Inv.Meta = append(ts.Inv.Meta, MetaSpec{Key: "shapes", V: &v}, MetaSpec{Key: "zero", V: ptr(vInt(0))}, MetaSpec{Key: "no", V: ptr(vBool(false))}, MetaSpec{Key: "eb", V: ptr(Val{K: "bytes", X: []byte{}})})
+		} else {
+			ts.Dlg.Meta = append(ts.Dlg.Meta, MetaSpec{Key: "shapes", V: &v}, MetaSpec{Key: "zero", V: ptr(vInt(0))}, MetaSpec{Key: "es", V: ptr(vStr(""))}, MetaSpec{Key: "no", V: ptr(vBool(false))})
+		}
+	}
+	// constructor-side deviations that must be refused (C10): short nonce, undefined principals
+	if r.Chance(0.12) {
+		n := r.Range(1, 11)
+		if ts.Kind == "inv" {
+			ts.Inv.NonceLen = n
+		} else {
+			ts.Dlg.NonceLen = n
+		}
+	}
+	if r.Chance(0.06) {
+		if ts.Kind == "inv" {
+			if r.Chance(0.5) {
+				ts.Inv.Iss = -1
+			} else {
+				ts.Inv.Sub = -1
+			}
+		} else if r.Chance(0.5) {
+			ts.Dlg.Iss = -1
+		} else {
+			ts.Dlg.Aud = -1
+		}
+	}
 	if r.Chance(0.2) {
 		v := vMap(KV{"a", vList(vInt(-9007199254740991), vInt(9007199254740991), vFloat(2.5), vBytes(r.Bytes(r.Range(0, 40))))}, KV{"s", vStr("ünï")})
 		if ts.Kind == "inv" {
